@@ -154,6 +154,9 @@ def check_modules(run, glue_reader):
         "acyclic-backward": ("struct Foo:\n  b [+1]  UInt  a\n  0 [+1]  UInt  b\n", False),
         "virtual-cycle": ("struct Foo:\n  0 [+1]  UInt  x\n  let a = b + x\n  let b = a + 1\n", True),
         "enum-value-cycle": ("enum Ee:\n  AA = Ee.BB\n  BB = Ee.AA\n", True),
+        "cross-structure-constant-cycle": ("struct Aa:\n  0 [+1]  UInt  x\n  let c = Bb.d + 1\nstruct Bb:\n  0 [+1]  UInt  y\n  let d = Aa.c + 1\n", True),
+        "enum-through-struct-constant-cycle": ("enum Ee:\n  VA = Ss.k\nstruct Ss:\n  0 [+1]  UInt  x\n  let k = Ee.VA + 0\n", True),
+        "cross-structure-constant-acyclic": ("struct Aa:\n  0 [+1]  UInt  x\n  let c = 3\nstruct Bb:\n  0 [+1]  UInt  y\n  let d = Aa.c + 1\n", False),
         "acyclic-diamond": ("struct Foo:\n  0 [+1]  UInt  a\n  a [+1]  UInt  b\n  a [+1]  UInt  c\n  let d = b + c\n", False),
     }
     bad = None
@@ -167,7 +170,7 @@ def check_modules(run, glue_reader):
             pass
         if has != cyc and bad is None:
             bad = {"case": nm, "module": src, "cycle_error_reported": has, "expected": cyc, "errors": str(errors)[:300]}
-    run.add(core.Obligation("bounded.front-end:cycle-error-iff-cycle[7 module shapes]", core.BPASS if bad is None else core.BFAIL, "cpython", 0.0,
+    run.add(core.Obligation("bounded.front-end:cycle-error-iff-cycle[10 module shapes]", core.BPASS if bad is None else core.BFAIL, "cpython", 0.0,
                             model=bad, kind="bounded", replay=None if bad is None else {"reproduced": True, "inputs": bad}))
     return len(cases), len(cases)
 
@@ -184,7 +187,7 @@ def main(args):
     e3, n3 = check_modules(run, _Reader)
     run.bounded.append({"what": "bounded stand-in (E3): exhaustive small scopes, see rule", "evaluations": e1 + e2 + e3, "distinct_nontrivial": n1 + n2 + n3})
     run.extra["rule"] = ("every digraph on <=4 labelled nodes and seeded random digraphs on 5..9 nodes (non-trivial: has a cycle); every DAG on <=4 fields x "
-                         "parameter dependencies (non-trivial: has an edge); 7 module shapes through the real front end")
+                         "parameter dependencies (non-trivial: has an edge); 10 module shapes through the real front end")
     run.extra["exhaustive"] = False
     for f in ("_find_cycles", "_find_dependency_ordering_for_fields_in_structure"):
         run.function("compiler.front_end.dependency_checker." + f, "contract with spec function checked on an exhaustively enumerated small scope (bounded, not proved)")
